@@ -78,12 +78,17 @@ def _mnemonic_class(cls):
 
 def classify(c):
     post = _post(c.impl)
+    if c.model.startswith("MIRROR-SAME "):
+        c.model = c.model[len("MIRROR-SAME "):]
+        STATS["mirror_compared"] += 1
     spec, model = c.spec, c.model
     mc = _mnemonic_class(c.cls)
     if post is None:
         # falcon returned no IL
         if c.impl.startswith("panic"):
             return "violation"
+        if model.startswith("MIRROR-DIFF"):
+            return "broken"
         STATS["rejected"] += 1
         if spec.startswith("next="):
             k = mc.split("/")[0]
